@@ -77,6 +77,12 @@ def check(ctx):
         ctx.ob('C15.R1', c, 'Struct constant %s' % k, fmt is not None and fmt.order in ('!', '>'),
                'Struct constant %s has format %s' % (k, U(v.args[0]) if v.args else None),
                'Kafka fields are big-endian fixed-width integers')
+        # protocol table: Kafka's fixed-width primitives are SIGNED (offset -1 = "no offset" on every failed produce, error codes, sizes -1 = null)
+        want = {'Int16': 'h', 'Int32': 'i', 'Int64': 'q', 'Byte': 'bB'}.get(k)
+        if want and fmt is not None:
+          codes = [x.code for x in fmt.fields]
+          ctx.ob('C15.R1', c, 'primitive %s has the width and signedness of the Kafka type' % k, len(codes) == 1 and codes[0] in want and fmt.fields[0].count in (1,),
+                 'Structs.%s is %s' % (k, U(v.args[0])), 'int16/int32/int64 of the Kafka protocol are signed two\'s complement: an unsigned code reads offset -1 as 18446744073709551615')
   mr = prog.try_func(KP, 'KafkaProtocol._SerializeMetadataRequest')
   if mr is not None:
     bad = [s for s in wire.struct_sites(prog, mr) if s.fmt is None or (s.op == 'pack' and s.fmt.nargs != len(s.args))]
@@ -93,6 +99,7 @@ def check(ctx):
   r4(ctx, bh, pr)
   r5(ctx)
   put_args_rules(ctx)
+  fresh_per_entry(ctx)
   from . import c11
   ctx.rule('C11.R3', 'shared with C11: a correlation id is released only by the reply path or for a never-written request (Kafka has no discard message)')
   c11.r2_r3(ctx)
@@ -368,6 +375,42 @@ def r4(ctx, bh, pr):
   vals = dict((k, prog.const_eval(v, mt.module, mt)) for k, v in mt.consts.items())
   ctx.ob('C15.R4', mt, 'API keys: Produce=0, Metadata=3', vals.get('ProduceRequest') == 0 and vals.get('MetadataRequest') == 3, 'API keys are %s' % vals,
          'API key numbers are fixed by the protocol', nontrivial=False)
+
+
+def fresh_per_entry(ctx):
+  """A container that a decode loop fills and then stores per entry of an outer table is created anew for every entry."""
+  prog = ctx.prog
+  why = ('each decoded entry (topic, partition list, ...) owns its table: a container created once in front of the loop and stored for every entry makes all entries '
+         'share the union of their contents')
+  n = 0
+  for fn in (prog.func(KP, 'KafkaProtocol._DeserializeMetadataResponse'), prog.func(KP, 'KafkaProtocol._DeserializeProduceResponse')):
+    mut = {}
+    for st in walk_no_nested(fn.node):
+      if isinstance(st, ast.Assign) and len(st.targets) == 1 and isinstance(st.targets[0], ast.Name):
+        v = st.value
+        if (isinstance(v, (ast.Dict, ast.List, ast.Set)) and not getattr(v, 'keys', getattr(v, 'elts', None))) or \
+           (isinstance(v, ast.Call) and isinstance(v.func, ast.Name) and v.func.id in ('dict', 'list', 'set', 'defaultdict', 'OrderedDict') and not v.args):
+          mut.setdefault(st.targets[0].id, []).append(st)
+    for lp in [x for x in ast.walk(fn.node) if isinstance(x, ast.For)]:
+      for st in lp.body:
+        # outer[key] = X   /   outer.append(X)   directly in the loop body, X a local container
+        x = None
+        if isinstance(st, ast.Assign) and len(st.targets) == 1 and isinstance(st.targets[0], ast.Subscript) and isinstance(st.value, ast.Name):
+          x = st.value.id
+        elif isinstance(st, ast.Expr) and isinstance(st.value, ast.Call) and call_attr(st.value) in ('append', 'add') and len(st.value.args) == 1 and isinstance(st.value.args[0], ast.Name):
+          x = st.value.args[0].id
+        if x is None or x not in mut:
+          continue
+        filled = any((isinstance(s2, ast.Assign) and isinstance(s2.targets[0], ast.Subscript) and U(s2.targets[0].value) == x) or
+                     (isinstance(s2, ast.Expr) and isinstance(s2.value, ast.Call) and call_attr(s2.value) in ('append', 'add', 'update', 'extend') and U(s2.value.func.value) == x)
+                     for s2 in ast.walk(lp))
+        if not filled:
+          continue
+        n += 1
+        inside = [d for d in mut[x] if any(d is s2 for s2 in lp.body)]
+        ctx.ob('C15.R5', fn, 'the per-entry container %s is created inside the loop that stores it' % x, len(inside) == 1 and len(mut[x]) == 1,
+               '%s is created at line(s) %s, outside the loop that fills and stores it per entry' % (x, [d.lineno for d in mut[x]]), why)
+  ctx.floor('C15.R5', 'per-entry containers of the response decoders', n, 1)
 
 
 def r5(ctx):
